@@ -677,9 +677,6 @@ class PLSSDesc:
         if clean_qq is None:
             clean_qq = self.clean_qq
 
-        # Config object for passing down to Tract objects.
-        handed_down_config = self.config.decompile_to_text()
-
         if segment is None:
             segment = self.segment
 
@@ -697,6 +694,21 @@ class PLSSDesc:
             qq_depth_min = self.qq_depth_min
         if qq_depth_max is None:
             qq_depth_max = self.qq_depth_max
+
+        # Config for passing down to Tract objects, compiled from the
+        # parameters as locked down for this parse (i.e. this object's
+        # cumulative settings, unless overridden by an argument above).
+        handed_down_config = Config()
+        handed_down_config.default_ns = default_ns
+        handed_down_config.default_ew = default_ew
+        handed_down_config.clean_qq = clean_qq
+        handed_down_config.suppress_lot_divs = self.suppress_lot_divs
+        handed_down_config.ocr_scrub = ocr_scrub
+        handed_down_config.qq_depth = qq_depth
+        handed_down_config.qq_depth_min = qq_depth_min
+        handed_down_config.qq_depth_max = qq_depth_max
+        handed_down_config.break_halves = break_halves
+        handed_down_config = handed_down_config.decompile_to_text()
 
         # Parameters for `PLSSParser.parse()`.
         config_params = {
